@@ -159,6 +159,7 @@ def explore_config(case):
     selx = [e["p"] for e in alpha.reduced([e for e in elems if not rot_excluded(e["p"]) and not rot_excluded(-e["p"])], 24 if not is_dp else 10)]
     numapi.check_group(res, B, [], selx, case, "config", ("exp", "wedge"))
     numapi.check_forms(res, B, [], selx, case, "config", ("exp", "wedge"))
+    numapi.check_composed(res, B, [], selx[:14], case, "config", firsts=["neg", "exp"], seconds=["exp", "wedge", "to_Matrix", "inverse"])
     numapi.check_algebra_arithmetic(res, B, selx, case, "config")
     # ---- one-parameter words ------------------------------------------------------------------
     depth = 3 if tier == "thorough" else 2
